@@ -107,7 +107,8 @@ def collection_matrix(ctx, roles, u, coll_site, adaptor_bi, name, cfg):
                 with root.restricted(blocks):
                     recv = root.trace(root.blocks[adaptor_bi]["term"]["args"][0])
                 from_payload = expr_mentions(recv, lambda x: x[0] == "downcast" and x[2] == "Array")
-                empty = expr_mentions(recv, lambda x: x[0] == "call" and x[1] and re.search(r"Vec::<T>::new$|Vec::<T>::with_capacity$", x[1]["path"]) is not None) and not from_payload
+                empty = (expr_mentions(recv, lambda x: x[0] == "call" and x[1] and re.search(r"Vec::<T>::new$|Vec::<T>::with_capacity$|^std::iter::empty$|Default>::default$", x[1]["path"]) is not None)
+                         or expr_mentions(recv, lambda x: x[0] == "agg" and x[1].get("agg") == "Array" and not x[2])) and not from_payload      # Vec::new(), vec![], &[], iter::empty()
                 res[(ev, v)] = "ITER(elements)" if from_payload else ("ITER(empty)" if empty else "ITER(?)")
             else:
                 with root.restricted(blocks):
@@ -334,7 +335,7 @@ def run(ctx):
                     ctx.check(ok, "K4.filter-truthy", "the push is under the truthy edge of the shared truthiness of the predicate's value (%s)" % cfg,
                               "the push is not guarded by truthy(predicate value) == true", where=s.where(), fn=clos.key, nontrivial=True)
             if name == "reduce" and not loop_form:
-                ctx.check(re.search(r"Iterator(>)?::fold$", apath) is not None, "K4.reduce-fold", "reduce is a left fold (%s)" % cfg, "per-element closure handed to %s" % apath, where=b.where(abi), fn=b.key, nontrivial=True)
+                ctx.check(re.search(r"Iterator(>)?::(fold|try_fold)$", apath) is not None, "K4.reduce-fold", "reduce is a left fold (%s)" % cfg, "per-element closure handed to %s" % apath, where=b.where(abi), fn=b.key, nontrivial=True)
                 init = strip_refs(b.trace(aterm["args"][1]))
                 seeded = expr_mentions(init, lambda x: x[0] == "call" and x[1] and x[1].get("key") == roles.parsed_evaluate)
                 ctx.check(seeded, "K4.reduce-seed", "the fold is seeded with the evaluated initial value (%s)" % cfg, "fold seed is %s" % show_expr(init)[:120], where=b.where(abi), fn=b.key, nontrivial=True)
